@@ -14,6 +14,12 @@ PROPS = {
         "components": [
             {"kind": "vx", "unit": "event_queue"},
             {"kind": "vx", "unit": "uplinks", "rlimit": 120},
+            {"kind": "vx", "unit": "write_queues"},
+            {"kind": "kx", "name": "queues", "package": "swimos_agent", "crate_dir": "server/swimos_agent",
+             "attach": "src/lanes/queues/mod.rs", "harness_file": "kx/swimos_agent/queues.rs", "bounded": True, "thorough_only": True,
+             "bound": "snapshots of length 0..3 over u8 keys, 2 snapshots; contents symbolic", "timeout": 1500,
+             "functions": [{"fn": f, "file": "server/swimos_agent/src/lanes/queues/mod.rs"} for f in ["SyncQueue::remove", "update_sync_queues"]],
+             "assumptions": ["bounded stand-in for the two functions assumed (external_body) in unit write_queues"]},
         ],
         "assumptions": [
             "generic key type K: Eq/Hash obey vstd's key model and Clone returns an equal value (preconditions of the contracts)",
@@ -105,6 +111,13 @@ PROPS = {
         "technique": "contract-based deductive verification: Verus on mechanically extracted real functions",
         "components": [
             {"kind": "vx", "unit": "uplinks", "rlimit": 120},
+            {"kind": "vx", "unit": "write_queues"},
+            {"kind": "kx", "name": "queues", "package": "swimos_agent", "crate_dir": "server/swimos_agent",
+             "attach": "src/lanes/queues/mod.rs", "harness_file": "kx/swimos_agent/queues.rs", "bounded": True, "thorough_only": True,
+             "bound": "snapshots of length 0..3 over u8 keys, 2 snapshots; contents symbolic", "timeout": 1500,
+             "functions": [{"fn": f, "file": "server/swimos_agent/src/lanes/queues/mod.rs"} for f in ["SyncQueue::remove", "update_sync_queues"]],
+             "assumptions": ["bounded stand-in for the two functions assumed (external_body) in unit write_queues"]},
+
         ],
         "assumptions": ["a syncing remote is linked when broadcast events covering its snapshot are emitted (cross-task; reading suggests this can fail for sync-without-link, DESIGN.md O1)"],
         "trusted_base": COMMON_TRUSTED,
